@@ -314,7 +314,8 @@ def rand_tree(rng: Any, ctx: Ctx, complex_ok: bool = False) -> Any:
 
 def case_tree(rng: Any, ctx: Ctx, index: int) -> None:
     what = gen.pick(rng, ['dot', 'dot-complex', 'zeros_like', 'ones_like', 'full_like', 'normal_like', 'uniform_like',
-                          'as_promoted_dtype', 'as_promoted_dtype-struct', 'as_structure', 'is_leaf'])
+                          'as_promoted_dtype', 'as_promoted_dtype-struct', 'as_promoted_dtype-weak', 'like-history', 'like-mode-toggle',
+                          'as_structure', 'is_leaf'])
     x = rand_tree(rng, ctx, complex_ok='complex' in what)
     as_struct = bool(rng.integers(2))
     LOG.case_key(f'tree:{what}:{type(x).__name__}:{"struct" if as_struct else "arrays"}', True)
@@ -377,6 +378,43 @@ def case_tree(rng: Any, ctx: Ctx, index: int) -> None:
                 big = [np.asarray(l, np.float64).ravel() for l in jax.tree.leaves(y) if l.size >= 4]
                 if what == 'uniform_like' and any((b < -1).any() or (b > 2).any() for b in big):
                     LOG.violation('C20', mon, 'uniform_like/bounds', '')
+        elif what == 'as_promoted_dtype-weak':
+            # one weakly typed leaf (values derived from Python scalars only) next to strongly typed ones: JAX's promotion lets the
+            # strongly typed leaves decide
+            i = int(rng.integers(len(ls)))
+            weak = jnp.full(ls[i].shape, gen.pick(rng, [0.5, 3, 2.0]))
+            assert weak.weak_type
+            mixed = jax.tree.unflatten(td, ls[:i] + [weak] + ls[i + 1:])
+            prom = jnp.result_type(*jax.tree.leaves(mixed))
+            y = T.as_promoted_dtype(mixed)
+            ly = jax.tree.leaves(y)
+            LOG.count('C20.tree.weak', f'{weak.dtype}+{"/".join(sorted({str(l.dtype) for l in ls[:i] + ls[i + 1:]}))}->{prom}')
+            if any(a.dtype != prom for a in ly):
+                LOG.violation('C20', mon, 'as_promoted_dtype-weak/dtype', f'{[str(a.dtype) for a in ly]} vs promoted {prom} (one weakly typed leaf)')
+        elif what == 'like-history':
+            # a sequence of calls on the same structure: each result depends on its own fill value only
+            seq = [gen.pick(rng, [0, 0.0, False, -0.0, 1, 1.0, True, 3, -2.5]) for _ in range(int(rng.integers(2, 5)))] + [-0.0]
+            for v in seq:
+                y = T.full_like(src, v) if rng.integers(3) else (T.zeros_like(src) if v == 0 and not (isinstance(v, float) and np.signbit(v)) else T.full_like(src, v))
+                if not like(y, None, 'full_like-sequence'):
+                    return
+                for a in jax.tree.leaves(y):
+                    exp = np.full(a.shape, v).astype(a.dtype)
+                    if not (np.array_equal(np.asarray(a), exp) and np.array_equal(np.signbit(np.asarray(a).real), np.signbit(exp.real))):
+                        LOG.violation('C20', mon, 'full_like-sequence/values', f'fill value {v!r} after {seq}: got {np.asarray(a).ravel()[:3]} ({a.dtype})')
+                        return
+        elif what == 'like-mode-toggle':
+            # the same request before and inside a temporary switch of the 64-bit mode: dtypes follow the mode in force at the call
+            wide = jax.tree.map(lambda l: jax.ShapeDtypeStruct(l.shape, np.float64 if np.issubdtype(l.dtype, np.floating) else np.int64), struct)
+            fn = gen.pick(rng, [T.zeros_like, T.ones_like, lambda t: T.full_like(t, 3)])
+            for mode in (bool(jax.config.jax_enable_x64), not jax.config.jax_enable_x64, bool(jax.config.jax_enable_x64)):
+                with jax.enable_x64(mode):
+                    y = fn(wide)
+                    exp = [jnp.zeros(l.shape, l.dtype).dtype for l in jax.tree.leaves(wide)]
+                got = [a.dtype for a in jax.tree.leaves(y)]
+                if got != exp:
+                    LOG.violation('C20', mon, 'like/mode-toggle/dtype', f'64-bit mode {mode}: {[str(g) for g in got]} vs {[str(e) for e in exp]}')
+                    return
         elif what.startswith('as_promoted_dtype'):
             src2 = struct if what.endswith('struct') else x
             y = T.as_promoted_dtype(src2)
